@@ -55,6 +55,7 @@ func main() {
 	tier := flag.String("tier", "quick", "quick | thorough")
 	replay := flag.String("replay", "", "replay file to re-execute against the current tree")
 	selftest := flag.Bool("selftest", false, "determinism self-test only")
+	fingerprint := flag.Bool("fingerprint", false, "print the fingerprint of the library sources and exit")
 	warm := flag.Bool("warm", false, "only build everything once (warms the Go build cache)")
 	modeltest := flag.Bool("modeltest", false, "test the simulator's concurrency model on the synthetic library only")
 	seedFlag := flag.String("seed", "", "seed (default: $VERIF_SEED or 1)")
@@ -101,6 +102,10 @@ func main() {
 	}
 	if *runs > 0 {
 		cfg.runs = *runs
+	}
+	if *fingerprint {
+		fmt.Println(sourcesFingerprint())
+		return
 	}
 	fmt.Printf("VERIF_SEED=%d property=%s tier=%s workers=%d\n", seed, propID, cfg.name, workers)
 
